@@ -30,6 +30,7 @@ var regressCases = []regressCase{
 	{"F2-squashed-load-then-load-same-line", "mul zero, t2, t4\nblt t4, t0, L1\nlw t1, 28(s2)\nL1:\nlw t0, 12(s2)\n", map[string]int32{"s2": 392, "t4": 0, "t0": 5}},
 	{"F3-load-then-ret", "lw t0, 0(s0)\nret\n", map[string]int32{"s0": 128}},
 	{"same-cycle-flushes-oldest-wins", "and t3, zero, t0\nsrl zero, a0, t2\nli s3, 3\nL8:\nli a2, 1\nlb t1, 47(s0)\nand a1, zero, t1\nsh t3, 52, s0\naddi s3, s3, -1\nbnez s3, L8\njal a2, L10\nL10:\n", map[string]int32{"s0": 2384, "t0": 820, "a0": 5, "t2": 27}},
+	{"text-after-ret", "li a0, 1\nlw t0, 0(s0)\nret\nli a0, 2\nadd t0, t0, t0\nsw a0, 4(s0)\n", map[string]int32{"s0": 128}},
 	{"F3-load-add-ret", "lw t0, 0(s0)\nlw t1, 64(s0)\nadd t2, t0, t1\nret\n", map[string]int32{"s0": 128}},
 }
 
